@@ -6,7 +6,7 @@ RULE = ("(a) library stages: each generated input (1-6 chromosomes incl. prefix 
         "with the merge jobs in sorted / reversed / shuffled order and with several seeds of Python's random (the summation tasks are "
         "shuffled); (b) the real CLI with -n 1/2/4/16, --single_process, PYTHONHASHSEED 0/1/random, under 16 busy-loop processes; all "
         "runs of one input must exit 0 and give identical file names, axis labels (in order) and values; the first run is compared with the "
-        "model; non-trivial = >= 2 chromosomes and a same-group overlap; distinct = (input, configuration). OS scheduling itself cannot be "
+        "model; (c) one input with hundreds of genes through the CLI while the MAIN process alone is stopped (SIGSTOP) for 3 s (thorough: 3-6 s) as soon as a density worker has begun to write, compared with the undisturbed run; non-trivial = >= 2 chromosomes and a same-group overlap; distinct = (input, configuration). OS scheduling itself cannot be "
         "exhibited by the model: part (b) is exploration")
 NAMESETS = [["Chr1", "Chr10", "Chr2", "Chr100", "Chr11", "Chr3"], ["c1", "c2", "c3", "c4", "c5", "c6"], ["A", "B", "AB", "A_1", "B1", "A1"]]
 
@@ -36,6 +36,57 @@ def diff_runs(base, other):
             d = [(a, b) for a, b in zip(base[fn]["cells"], other[fn]["cells"]) if a != b][:1]
             return {"kind": "values_differ", "file": fn, "first": [list(map(str, x)) for x in d[0]] if d else "length"}
     return None
+
+
+def stalled_cli_run(case, stall=3.0, nproc=2, timeout=300):
+    """The real command line on `case`; as soon as a density worker has started to (re)write a result file, the MAIN process alone is
+    stopped (SIGSTOP) for `stall` seconds - the operating system not scheduling it - and then continued. Returns the usual report
+    plus whether the stall took place."""
+    import shutil, tempfile, time
+    d = tempfile.mkdtemp(prefix="vhc10_")
+    try:
+        g, t, c = os.path.join(d, "genes.tsv"), os.path.join(d, "tes.tsv"), os.path.join(d, "cfg.ini")
+        gen.write_pair(case, g, t, c)
+        out = os.path.join(d, "out")
+        cmd = [common.PY, os.path.join(common.REPO, "process_genome.py"), g, t, "G", "-c", c, "-o", out, "-n", str(nproc)]
+        p = subprocess.Popen(cmd, cwd=d, env=common.child_env(), stdin=subprocess.DEVNULL, stdout=subprocess.PIPE, stderr=subprocess.STDOUT, start_new_session=True)
+        stalled = False
+        try:
+            seen = {}
+            t0 = time.time()
+            while p.poll() is None and time.time() - t0 < timeout and not stalled:
+                try:
+                    for fn in os.listdir(out):
+                        if fn.endswith(".h5"):
+                            st = os.stat(os.path.join(out, fn))
+                            key = (st.st_mtime_ns, st.st_size)
+                            hist = seen.setdefault(fn, [])
+                            if not hist or hist[-1] != key:
+                                hist.append(key)
+                            # created by the counting pass, then rewritten by the summation worker: the second rewrite has begun
+                            if len(hist) >= 3 and hist[-1][1] < max(h[1] for h in hist[:-1]):
+                                os.kill(p.pid, signal.SIGSTOP)
+                                time.sleep(stall)
+                                os.kill(p.pid, signal.SIGCONT)
+                                stalled = True
+                                break
+                except FileNotFoundError:
+                    pass
+                time.sleep(0.002)
+            try:
+                outb, _ = p.communicate(timeout=timeout)
+            except subprocess.TimeoutExpired:
+                outb = b"TIMEOUT"
+            rc = p.returncode if p.returncode is not None else -999
+        finally:
+            try:
+                os.killpg(p.pid, signal.SIGKILL)
+            except (ProcessLookupError, PermissionError):
+                pass
+        files = cli.read_results(out) if os.path.isdir(out) else []
+        return {"rc": rc, "log": outb.decode("utf-8", "replace")[-3000:], "files": files, "ok": rc == 0, "stalled": stalled}
+    finally:
+        shutil.rmtree(d, ignore_errors=True)
 
 
 def lib_configs(tier):
@@ -149,11 +200,36 @@ def run(chk):
                 os.killpg(p.pid, signal.SIGKILL)
             except Exception:
                 pass
+    # (c) the main process not scheduled for a few seconds while the density workers run (hundreds of genes per chromosome)
+    big = gen.gen_big_files(chk.rng("stall"))
+    ref = cli.run_case_cli(big, nproc=2, timeout=300)
+    for k in range(1 if chk.tier == "quick" else 4):
+        rep = stalled_cli_run(big, stall=3.0 + k)
+        chk.cov["evaluations"] += 1
+        chk.count("cli_runs_main_process_stalled" if rep["stalled"] else "cli_runs_stall_not_placed")
+        fails = []
+        if ref["rc"] != 0 or rep["rc"] != 0:
+            fails.append({"kind": "cli_exit_status", "undisturbed": ref["rc"], "main_process_stalled": rep["rc"], "log": rep["log"][-500:]})
+        else:
+            d = diff_runs(summarize(ref), summarize(rep))
+            if d:
+                fails.append(d)
+        if fails:
+            nv += 1
+            chk.violation("CLI run with the main process stopped for %.0f s during the density stage differs from the undisturbed run (or fails)" % (3.0 + k),
+                          {"stalled_big_files": {"stall": 3.0 + k, "rng": "stall"}, "failures": fails[:3]})
     chk.sample({"chromosomes": sorted(set(g["chrom"] for g in cases[0]["genes"])), "library_configurations": lc[:3], "cli_configurations": cli_configs(chk.tier)[:2]})
     return chk.finish(rule=RULE)
 
 
 def replay(chk, rp):
+    if "stalled_big_files" in rp:
+        big = gen.gen_big_files(chk.rng("stall"))
+        ref = cli.run_case_cli(big, nproc=2, timeout=300)
+        rep = stalled_cli_run(big, stall=rp["stalled_big_files"]["stall"])
+        bad = ref["rc"] != 0 or rep["rc"] != 0 or bool(diff_runs(summarize(ref), summarize(rep)))
+        print(json.dumps({"undisturbed_exit": ref["rc"], "stalled_exit": rep["rc"], "stall_placed": rep["stalled"], "log": rep["log"][-400:]}, indent=1))
+        return 1 if bad else 0
     c = rp["case"]
     lc = lib_configs("quick")
     reps = pool.run_requests([dict({"op": "pipeline", "case": c}, **cfg) for cfg in lc], timeout=240)
